@@ -167,6 +167,13 @@ type (
 	}
 	// recursion
 	RecSlice []*RecSlice
+	// named ARRAY types whose cycle passes through unnamed types only
+	RecRing   [2]*RecRing
+	RecGrid   [1][]RecGrid
+	HoldsRing struct {
+		A int
+		R RecRing
+	}
 	RecX     struct{ Y *RecY }
 	RecY     struct{ Xs []RecX }
 	RecMap   struct{ M map[string]RecMap }
@@ -260,6 +267,10 @@ type (
 		I int    `json:"i,"`
 		J []int  `json:"j,omitempty,"`
 		K bool   `json:"k,omitzero,unknown"`
+		// options are compared literally: a blank makes it another (unknown) option
+		L int    `json:"l, omitempty"`
+		M *int   `json:"m,omitempty "`
+		N string `json:"n, omitzero"`
 	}
 	// an outer field hides a promoted one by its Go name although the JSON names differ:
 	// encoding/json still emits the promoted field
@@ -362,7 +373,7 @@ func Catalog() []T {
 		t.HasMarshaler = true
 		out = append(out, t)
 	}
-	for _, x := range []any{RecSlice{}, RecX{}, RecY{}, RecMap{}, RecPtr{}, &RecPtr{}, []RecPtr{}, RecEmb{}} {
+	for _, x := range []any{RecSlice{}, RecX{}, RecY{}, RecMap{}, RecPtr{}, &RecPtr{}, []RecPtr{}, RecEmb{}, RecRing{}, RecGrid{}, HoldsRing{}} {
 		t := mkT(x, "recursive")
 		t.Recursive = true
 		out = append(out, t)
